@@ -299,6 +299,49 @@ fn alpha_ls(cfg: &Cfg) -> Vec<Op> {
 }
 
 static LS: LockStep = LockStep { property: "C16", probes: true, seed: None };
+static LS_REGIONS: LockStep = LockStep { property: "C16", probes: false, seed: None };
+
+/// excursions from and into screens with scroll regions and origin mode: what the program
+/// on the alternate screen does to the margins must not bend the cursor that 1049 restores
+fn alpha_regions(cfg: &Cfg) -> Vec<Op> {
+    let rows = cfg.rows as u32;
+    let mut v = vec![
+        c(Decstbm(Some(rows - 1), Some(rows))),
+        c(Decstbm(Some(1), Some(2))),
+        c(Decstbm(Some(2), Some(rows - 1))),
+        c(Decstbm(None, None)),
+        c(DecSet(vec![6])),
+        c(DecRst(vec![6])),
+        c(DecSet(vec![1049])),
+        c(DecRst(vec![1049])),
+        c(DecSet(vec![1047])),
+        c(DecRst(vec![1047])),
+        c(Cup(None, None)),
+        c(Cup(Some(99), Some(99))),
+        c(Cud(None)),
+        t("a"),
+        c(Decsc),
+        c(Decrc),
+    ];
+    v.push(Op::resize(cfg.cols + 1, cfg.rows));
+    v
+}
+
+fn regions_part(tier: Tier) -> Part<'static, LockStep> {
+    Part {
+        name: "excursions-with-regions-lockstep",
+        sys: &LS_REGIONS,
+        cfgs: match tier {
+            Tier::Quick => cfgs(&[(2, 4)], &[None]),
+            Tier::Thorough => cfgs(&[(2, 4), (2, 5), (3, 6)], &[None]),
+        },
+        alphabet: &alpha_regions,
+        depth: tier.pick(5, 7),
+        seconds: tier.pick(20.0, 1800.0),
+        validated: true,
+        nontrivial: Some("lockstep_transitions"),
+    }
+}
 
 macro_rules! parts {
     ($tier:expr) => {{
@@ -340,6 +383,7 @@ pub fn run(ctx: &Ctx) -> Report {
     let (frame, ls) = parts!(ctx.tier);
     run_part(ctx, &mut rep, &frame);
     run_part(ctx, &mut rep, &ls);
+    run_part(ctx, &mut rep, &regions_part(ctx.tier));
     run_part(ctx, &mut rep, &super::sweep::mode_part(&SYS_MODES, ctx.tier));
     super::sweep::mode_number_sweep(ctx, &mut rep, &SYS_MODES);
     rep.rule = "BFS over histories mixing primary-screen edits, entry by 47/1047/1049, everything executable on the alternate screen (prints, scrolls, IL/DL, ED/EL, DECALN, ICH/DCH, margins, save/restore, DECSTR, RI), exit by 47/1047/1049 and four resizes; frame oracle: blank alternate screen in the current pen on entry, text() constant throughout, primary lines() identical after leaving (size unchanged) or re-wrapped-not-altered by the C10 relation (size changed), 1049 pair restores the cursor; plus a lock-step run of the buffer switches against the reference terminal; non-trivial = calls executed while the alternate screen is showing".into();
@@ -355,6 +399,7 @@ pub fn replay(ctx: &Ctx, v: &Value) -> bool {
     let (frame, ls) = parts!(tier);
     match v["part"].as_str().unwrap_or("") {
         "excursions-frame-oracle" => replay_part(ctx, &frame, v),
+        "excursions-with-regions-lockstep" => replay_part(ctx, &regions_part(tier), v),
         "every-mode-number" => super::sweep::mode_number_replay(ctx, &SYS_MODES),
         "mode-list-shapes" => replay_part(ctx, &super::sweep::mode_part(&SYS_MODES, tier), v),
         _ => replay_part(ctx, &ls, v),
